@@ -441,7 +441,7 @@ class Installer:
         if os.path.islink(from_file):
             if not os.path.exists(from_file):
                 # Dangling symlink. Replicate as is.
-                self.copy(from_file, outdir, follow_symlinks=False)
+                self.copy(from_file, to_file, follow_symlinks=False)
             else:
                 if follow_symlinks is None:
                     follow_symlinks = True  # TODO: change to False when removing the warning
